@@ -15,7 +15,9 @@ SCHEDULES = [
     ("every-7", dict(checkpoint_on_iteration=True, checkpoint_interval=7)),
     ("every-50", dict(checkpoint_on_iteration=True, checkpoint_interval=50)),
     ("time-0.2s", dict(checkpoint_on_iteration=False, checkpoint_interval=0.2)),
-    ("on-training", dict(checkpoint_on_iteration=True, checkpoint_interval=10**6, checkpoint_on_training=True)),
+    # checkpoint_on_training goes through the periodic path: it only writes when the interval has elapsed, so the interval must be short for it to write at all
+    ("on-training", dict(checkpoint_on_iteration=True, checkpoint_interval=25, checkpoint_on_training=True)),
+    ("on-training-time", dict(checkpoint_on_iteration=False, checkpoint_interval=0.05, checkpoint_on_training=True)),
 ]
 STD_VARIANTS = [
     ("default", "G2u", {}),
@@ -133,6 +135,11 @@ def analyse(case, res):
                     probs.append((f"final-run-invariant:{prop}:{key}", detail))
                 stats["done"] = True
                 stats["final_iteration"] = e["it"]
+    # mechanism predicate for the known finding: the run was resumed from a checkpoint that checkpoint_on_training wrote in the middle of an iteration
+    # (worst point already recorded, replacement not yet inserted)
+    stats["resumed_from_mid_iteration_checkpoint"] = any(
+        (e["ev"] == "start" and e.get("resumed") and ckpts.get(e.get("loaded_seq"), {}).get("mid_iteration")) for evs in res["segs"] for e in evs)
+    stats["mid_iteration_checkpoints"] = sum(1 for c in ckpts.values() if c.get("mid_iteration"))
     stats["allowed_kinds"] = allowed_kinds
     if not stats.get("done") and not probs:
         probs.append(("history-did-not-complete", dict(exits=res["exits"], stderr=res.get("stderr", "")[-300:])))
@@ -193,7 +200,17 @@ def main():
             allowed_total[k] = allowed_total.get(k, 0) + v
         chk.case_done(ident=(c["variant"], c["schedule"], tuple(c["kills"]), c["kwargs"]["seed"]), nontrivial=st["restores"] > 0 and st.get("done", False),
                       sample=dict(history=small, exits=r["exits"], restores=st["restores"], checkpoints=st["checkpoints"], final_iteration=st.get("final_iteration")) if c["idx"] < 3 else None)
+        chk.count("mid_iteration_checkpoints_written", st["mid_iteration_checkpoints"])
+        if st["resumed_from_mid_iteration_checkpoint"]:
+            chk.count("histories_resumed_from_mid_iteration_checkpoint")
+        seen_mid = False
         for key, detail in probs:
+            if st["resumed_from_mid_iteration_checkpoint"] and c["kwargs"].get("checkpoint_on_training") and (
+                    key.startswith(("result:duplicated-samples-after-resume", "final-run-invariant:C01:", "final-run-invariant:C05:", "restore:"))):
+                if seen_mid:
+                    continue
+                seen_mid = True
+                key = "checkpoint-on-training:resumed-from-mid-iteration-checkpoint"
             chk.violation("C12:" + key, f"history {c['idx']} {c['sampler']}/{c['variant']} schedule={c['schedule']} kills={c['kills']} exits={r['exits']}: {detail}", small)
     chk.extra["allowed_differences_seen"] = allowed_total
     chk.assumptions += ["fields allowed to differ between the pickled and the restored object are listed with reasons in vlib/digest.py (flow weights are outside the property's list)",
